@@ -621,6 +621,13 @@ func (ex *Exec) postEnv(entryEnv *SpecEnv, e *Exit, fn *ssa.Function) *SpecEnv {
 				vt[n] = res.At(i).Type()
 			}
 		}
+		// result names given in the contract header (func f :: params -> results)
+		if entryEnv.contract != nil && i < len(entryEnv.contract.Results) {
+			if n := entryEnv.contract.Results[i]; n != "" && n != "_" {
+				vars[n] = r
+				vt[n] = res.At(i).Type()
+			}
+		}
 	}
 	return &SpecEnv{ex: ex, st: e.St, old: ex.Entry, vars: vars, vtypes: vt, pkg: entryEnv.pkg, contract: entryEnv.contract}
 }
